@@ -84,8 +84,9 @@ def canon(obj, _depth=0):  # pylint: disable=too-many-return-statements,too-many
         if isinstance(obj, types):
             return rule(obj)
     if attr.has(type(obj)):
+        # fields the class itself excludes from equality (eq=False: caches, bookkeeping) are not object state
         return ('attrs', type(obj).__name__, tuple(
-            (field.name, canon(getattr(obj, field.name), _depth + 1)) for field in attr.fields(type(obj))
+            (field.name, canon(getattr(obj, field.name), _depth + 1)) for field in attr.fields(type(obj)) if field.eq
         ) + _extra_dict(obj, _depth))
     module = type(obj).__module__ or ''
     if isinstance(obj, type):
